@@ -23,11 +23,11 @@ RULE = (
     "batches are produced by the reference encoder kv.refbatch.encode_batch from Hypothesis-generated wire-level "
     "batches (0-5 records, int64 base offset with int32 deltas, record timestamps anywhere in [epoch, 9999-12-31], "
     "null/empty/non-empty keys, values and headers, all header fields over their full ranges; in 1 record of 13 a key or "
-    "value of 63..8192 bytes or 63-65 headers, so that length and count varints need 2-3 bytes), plus the four "
+    "value of 63..8192 bytes or 63-65 headers, so that length and count varints need 2-3 bytes; 1 batch in 12 stretched so that the checksummed region is exactly 4096, 65536 or 131072 bytes), plus the four "
     "real-broker batches of tests/records/fixtures.py; each batch is read - in every second case after another well-formed batch on the same stream - (a) intact: header fields and "
     "records must equal the encoded ones and write_batch(read_batch(b)) == b; (b) with EVERY single-bit flip from byte "
     "17 (CRC field) to the end, (c) truncated at EVERY length 0..len-1 (batches above 600 bytes: every position in the first 96 "
-    "and last 32 bytes and every 7th in between), (d) with EVERY wrong magic value: each must "
+    "and last 32 bytes and every 7th in between, at most ~256 positions in between for batches above 1800 bytes), (d) with EVERY wrong magic value: each must "
     "raise and never return a batch (read calls are counted, not timed). evaluations = reads executed. Non-trivial = "
     "corruption case; distinct by (batch hash, fault). The main search uses whole-second record timestamps; "
     "sub-second ones are the region of an open known finding and are probed separately."
@@ -73,6 +73,21 @@ def wire_batches(draw, subsecond: bool):
             headers=(tuple(WireHeader(draw(_blob(6)), draw(_blob(6))) for _ in range(nh)) if nh < 60 else
                      tuple(WireHeader(bytes([65 + j % 26]) * (j % 3), None if j % 5 == 0 else bytes([j])) for j in range(nh))),
         ))
+    if len(recs) >= 2 and draw(st.integers(0, 15)) == 0:
+        # "CRC twins": two records whose header (or key / value) bytes differ by a multiple of the CRC-32C generator
+        # polynomial - different content, same length, same CRC-32C.  Anything keyed by a checksum of the content conflates them.
+        import dataclasses as _dc
+
+        base = draw(st.binary(min_size=5, max_size=12))
+        twin = bytes(b ^ p for b, p in zip(base, b"\xf1\x76\xec\x05\x01" + bytes(len(base) - 5)))
+        where = draw(st.sampled_from(["header", "key", "value"]))
+        if where == "header":
+            recs[0] = _dc.replace(recs[0], headers=(WireHeader(b"request-id", base),))
+            recs[1] = _dc.replace(recs[1], headers=(WireHeader(b"request-id", twin),))
+        elif where == "key":
+            recs[0], recs[1] = _dc.replace(recs[0], key=base), _dc.replace(recs[1], key=twin)
+        else:
+            recs[0], recs[1] = _dc.replace(recs[0], value=base), _dc.replace(recs[1], value=twin)
     return WireBatch(
         base_offset=base_offset,
         partition_leader_epoch=draw(int_strategy(-(2**31), 2**31 - 1)),
@@ -140,13 +155,13 @@ def check_identity(wb: WireBatch, data: bytes) -> tuple[list, bool]:
     try:
         rb, used = _read(data)
     except Exception as e:
-        return [(f"intact-batch-rejected:{K.exc_signature(e)}", f"read_batch raised {e!r} for well-formed {data.hex()}")], False
+        return [(f"intact-batch-rejected:{K.exc_signature(e)}", f"read_batch raised {e!r} for well-formed {data.hex()[:1200]}")], False
     if used != len(data):
         out.append(("consumed", f"read_batch consumed {used} of {len(data)} bytes"))
     for name in ("base_offset", "partition_leader_epoch", "attributes", "last_offset_delta", "base_timestamp", "max_timestamp",
                  "producer_id", "producer_epoch", "base_sequence"):
         if getattr(rb, name) != getattr(wb, name):
-            out.append((f"header:{name}", f"{name} = {getattr(rb, name)}, encoded {getattr(wb, name)}; batch {data.hex()}"))
+            out.append((f"header:{name}", f"{name} = {getattr(rb, name)}, encoded {getattr(wb, name)}; batch {data.hex()[:1200]}"))
     if rb.batch_length != len(data) - 12:
         out.append(("header:batch_length", f"batch_length = {rb.batch_length}, encoded {len(data) - 12}"))
     if rb.crc != int.from_bytes(data[17:21], "big"):
@@ -163,22 +178,22 @@ def check_identity(wb: WireBatch, data: bytes) -> tuple[list, bool]:
             if ms % 1000 != 0 and r.timestamp == truncated:
                 known = True
             else:
-                out.append(("record:timestamp", f"record {i} timestamp {r.timestamp!r}, encoded {ms} ms = {want!r}; batch {data.hex()}"))
+                out.append(("record:timestamp", f"record {i} timestamp {r.timestamp!r}, encoded {ms} ms = {want!r}; batch {data.hex()[:1200]}"))
         if r.timestamp.tzinfo is None or r.timestamp.utcoffset() != datetime.timedelta(0):
             out.append(("record:timestamp-zone", f"record {i} timestamp {r.timestamp!r} is not UTC-aware"))
         for name, got, exp in (("attributes", r.attributes, w.attributes), ("offset", r.offset, wb.base_offset + w.offset_delta),
                                ("key", r.key, w.key), ("value", r.value, w.value),
                                ("headers", tuple((h.key, h.value) for h in r.headers), tuple((h.key, h.value) for h in w.headers))):
             if got != exp or (isinstance(exp, tuple) and not isinstance(got, tuple)):
-                out.append((f"record:{name}", f"record {i} {name} = {got!r}, encoded {exp!r}; batch {data.hex()}"))
+                out.append((f"record:{name}", f"record {i} {name} = {got!r}, encoded {exp!r}; batch {data.hex()[:1200]}"))
     if not out and exact_ts:
         buf = io.BytesIO()
         try:
             write_batch(buf, rb)
             if buf.getvalue() != data:
-                out.append(("write-back-differs", f"write_batch(read_batch(b)) = {buf.getvalue().hex()}\n b = {data.hex()}"))
+                out.append(("write-back-differs", f"write_batch(read_batch(b)) = {buf.getvalue().hex()[:1200]}\n b = {data.hex()[:1200]}"))
         except Exception as e:
-            out.append((f"write-back-raised:{K.exc_signature(e)}", f"write_batch(read_batch(b)) raised {e!r}; b = {data.hex()}"))
+            out.append((f"write-back-raised:{K.exc_signature(e)}", f"write_batch(read_batch(b)) raised {e!r}; b = {data.hex()[:1200]}"))
     return out, known
 
 
@@ -187,8 +202,10 @@ def faults(data: bytes):
     enumerated with a stride in their middle part: every position in the first 96 and last 32 bytes, every 7th between."""
     dense = len(data) <= 600
 
+    coarse = max(7, len(data) // 256)  # at most ~256 positions in the middle part of very large batches
+
     def picked(pos: int) -> bool:
-        return dense or pos < 96 or pos >= len(data) - 32 or pos % 7 == 0
+        return dense or pos < 96 or pos >= len(data) - 32 or pos % coarse == 0
 
     for pos in range(17, len(data)):
         if not picked(pos):
@@ -213,7 +230,7 @@ def check_faults(data: bytes):
             rb, _ = _read(bad)
         except RuntimeError as e:
             if "read budget" in str(e):
-                out.append((f"damaged-batch-read-budget:{label.split('@')[0].split('=')[0]}", f"{label}: {e}; batch {data.hex()}"))
+                out.append((f"damaged-batch-read-budget:{label.split('@')[0].split('=')[0]}", f"{label}: {e}; batch {data.hex()[:1200]}"))
             continue
         except Exception:
             continue
@@ -222,7 +239,7 @@ def check_faults(data: bytes):
         if kind == "bitflip":
             pos = int(label.split("@")[1].split(".")[0])
             region = ":crc-field" if pos < 21 else ":checksummed"
-        out.append((f"damaged-batch-accepted:{kind}{region}", f"{label}: read_batch returned a batch for damaged input; original {data.hex()}"))
+        out.append((f"damaged-batch-accepted:{kind}{region}", f"{label}: read_batch returned a batch for damaged input; original ({len(data)} bytes) {data.hex()[:600]}"))
     return n, out
 
 
@@ -242,6 +259,28 @@ def _worker(task):
     @given(wire_batches(subsecond))
     def test(wb):
         data = encode_batch(wb)
+        if wb.records and not subsecond and (len(data) + len(wb.records)) % 12 == 0:
+            # 1 batch in 12 is stretched so that the checksummed region (attributes .. end) is an exact multiple of a common
+            # block size: chunked checksum / read loops are most fragile there
+            import dataclasses as _dc
+
+            target = (4096, 65536, 131072)[len(wb.records) % 3]
+            for _ in range(5):
+                region = len(data) - 21
+                if region == target:
+                    break
+                last = wb.records[-1]
+                cur = last.value or b""
+                if region > target:
+                    if len(cur) < region - target:
+                        break
+                    cur = cur[: len(cur) - (region - target)]
+                else:
+                    cur = cur + b"\x5a" * (target - region)
+                wb = _dc.replace(wb, records=wb.records[:-1] + (_dc.replace(last, value=cur),))
+                data = encode_batch(wb)
+            if len(data) - 21 == target:
+                c["aligned_batches"] = c.get("aligned_batches", 0) + 1
         run_batch(rep, c, wb, data, subsecond, with_faults=not subsecond or c["probe_batches"] < 3)
 
     test()
